@@ -422,7 +422,7 @@ def reader_slots(ctx, cq: str, n_comma: int):
                          n.value.func.attr == "split"} |
                         {n.targets[0].id for n in ast.walk(M.fn(cq + ".read_string").node) if isinstance(n, ast.Assign) and
                          isinstance(n.targets[0], ast.Name) and C.dict_call_kwargs(n.value) is not None}))
-    fn = M.nfn(cq + ".read_string", subst=True, keep=keep)
+    fn = M.nfn(cq + ".read_string", subst=True, keep=keep, ssa=True)
     res = _resolver(M, fn.mod, fn.cls)
     arrays = {}   # name -> ('comma',) | ('colon', parent_index)
     dnode = None
